@@ -74,8 +74,15 @@ CLAIMED['C06'] = dict(
          'obligation: both fail, or both succeed with equal final stacks / equal accept-reject (exposed the b\'\\x00\' false value and the unchecked data-push stack limit, both fixed).',
     note='programs are bounded (1 symbolic opcode + context in quick; 2 symbolic bytes in thorough); ECDSA is an oracle predicate; hash opcodes uninterpreted on both sides; '
          'RawSignatureHash inside CHECKSIG is shared with the reference (its exactness is C03).')
+CLAIMED['C07'] = dict(
+    text=_T + 'VerifyScript on arbitrary symbolic byte strings (all 256^n values) as scriptSig x scriptPubKey for the stated small lengths, structured long inputs '
+         '(PUSHDATA1/2/4 with symbolic length fields over up to 10 001 bytes, headers truncated at every position, P2SH-shaped scriptPubKey with arbitrary redeem bytes, '
+         'signature opcodes with in- and out-of-range input index), symbolic mutable/immutable transactions and the admissible flag subsets: on every path the outcome is a normal return '
+         'or an exception derived from ValidationError (anything else escapes the harness and is reported after replay), the transaction and scripts are unchanged terms, '
+         'and the state captured in an EvalScriptError is within the interpreter limits.',
+    note='OpenSSL is an oracle stub (exceptions inside OpenSSL outside the claim); termination by construction per explored path; lengths of arbitrary strings are the bound.')
 _UC = 'check not built yet in this round (engine exists; harness pending) - will be claimed or declared not applicable with its real reason'
-for _i in ['C05','C07','C09','C12','C14','C19']:
+for _i in ['C05','C09','C12','C14','C19']:
     NA[_i] = _UC
 NA['C13'] = ('key derivation, signing, verification and point validity are computed by OpenSSL through ctypes: there is no Python or IR to execute '
              'symbolically, and the reference (secp256k1 group law, 256-bit modular inversion) is non-linear 256-bit arithmetic out of reach of z3/cvc5')
